@@ -72,15 +72,32 @@ Section Upload.
     | n :: r => let (x, ok) := op (dir, n) (dest, n) x in if ok then each op dir dest r x else (x, false)
     end.
 
+  (* the listed names are plain file names, and none of them is the control file itself (checkListedFilename; the second
+     condition is repair 7cf001d: a control file that lists itself was handled as one of its own files - first) *)
+  Definition listed_ok (h : handle) : bool :=
+    forallb plain (h_listed h) && negb (existsb (str_eqb (h_file h)) (h_listed h)).
+  Lemma listed_ok_plain h : listed_ok h = true -> forallb plain (h_listed h) = true.
+  Proof. unfold listed_ok. intros H. now apply andb_true_iff in H as [H _]. Qed.
+  Lemma listed_ok_not_self h : listed_ok h = true -> ~ In (h_file h) (h_listed h).
+  Proof.
+    unfold listed_ok. intros H Hin. apply andb_true_iff in H as [_ H]. apply negb_true_iff in H.
+    assert (E : existsb (str_eqb (h_file h)) (h_listed h) = true).
+    { apply existsb_exists. exists (h_file h). split; [exact Hin|]. destruct (str_eqb_spec (h_file h) (h_file h)); [reflexivity|congruence]. }
+    congruence.
+  Qed.
+
+  Lemma listed_self_not_ok h : In (h_file h) (h_listed h) -> listed_ok h = false.
+  Proof. intros Hin. destruct (listed_ok h) eqn:E; [|reflexivity]. exfalso. exact (listed_ok_not_self h E Hin). Qed.
+
   (* DSC.Copy / Changes.Copy, DSC.Move / Changes.Move: referenced files first, the control file last *)
   Definition transfer (op : entry -> entry -> st -> st * bool) (h : handle) (dest : str) (x : st) : st * bool :=
-    if negb (forallb plain (h_listed h)) then (x, false)        (* repair #30 *)
+    if negb (listed_ok h) then (x, false)        (* repair #30 *)
     else let (x, ok) := each op (h_dir h) dest (h_listed h) x in
          if ok then op (h_dir h, h_file h) (dest, h_file h) x else (x, false).
   Definition do_copy := transfer copy_file.
   Definition do_move := transfer rename_file.
   Definition do_remove (h : handle) (x : st) : st * bool :=
-    if negb (forallb plain (h_listed h)) then (x, false)
+    if negb (listed_ok h) then (x, false)
     else let (x, ok) := each (fun src _ => remove_file src) (h_dir h) [] (h_listed h) x in
          if ok then remove_file (h_dir h, h_file h) x else (x, false).
 
@@ -163,7 +180,7 @@ Section Upload.
       forall pre ev post, ext = pre ++ ev :: post -> arrives (dest, h_file h) ev ->
         forall n, In n (h_listed h) -> completed (dest, n) pre.
   Proof.
-    intros OK Hnot. unfold transfer. destruct (negb (forallb plain (h_listed h))).
+    intros OK Hnot. unfold transfer. destruct (negb (listed_ok h)).
     { intros E. inversion E; subst. exists []. rewrite app_nil_r. split; [reflexivity|]. intros [|? ?] ? ? E2; discriminate. }
     destruct (each op (h_dir h) dest (h_listed h) x) as [x1 ok1] eqn:EA.
     destruct (each_log op OK _ _ _ _ _ _ EA) as (e1&L1&A1&C1). destruct ok1.
@@ -218,9 +235,9 @@ Section Upload.
       forall ev e, In ev ext -> In e (touches ev) ->
         exists n, plain n = true /\ (e = (h_dir h, n) \/ e = (dest, n)) \/ (n = h_file h /\ (e = (h_dir h, n) \/ e = (dest, n))).
   Proof.
-    intros OT. unfold transfer. destruct (forallb plain (h_listed h)) eqn:P; cbn [negb].
+    intros OT. unfold transfer. destruct (listed_ok h) eqn:P; cbn [negb].
     2:{ intros E. inversion E; subst. exists []. rewrite app_nil_r. split; [reflexivity|contradiction]. }
-    rewrite forallb_forall in P.
+    apply listed_ok_plain in P. rewrite forallb_forall in P.
     destruct (each op (h_dir h) dest (h_listed h) x) as [x1 ok1] eqn:EA.
     destruct (each_touch op OT _ _ _ _ _ _ EA) as (e1&L1&T1). destruct ok1.
     - intros O. destruct (OT _ _ _ _ _ O) as (e2&L2&T2). exists (e1 ++ e2). rewrite L2, L1, <- app_assoc. split; [reflexivity|].
@@ -232,7 +249,7 @@ Section Upload.
   Qed.
 
   (* a listed name with a path separator (or "", ".", "..") stops the operation before anything is touched *)
-  Theorem C20_traversal_refused op h dest x : forallb plain (h_listed h) = false -> transfer op h dest x = (x, false).
+  Theorem C20_traversal_refused op h dest x : listed_ok h = false -> transfer op h dest x = (x, false).
   Proof. intros H. unfold transfer. now rewrite H. Qed.
 
   (* ---------- frame: an operation on (src, dst) leaves every other entry alone ---------- *)
@@ -290,7 +307,7 @@ Section Upload.
     fs_get (dest, h_file h) (fs x) = None ->
     do_copy h dest x = (x', false) -> fs_get (dest, h_file h) (fs x') = None.
   Proof.
-    intros Hnot H0. unfold do_copy, transfer. destruct (negb (forallb plain (h_listed h))); [intros E; inversion E; subst; exact H0|].
+    intros Hnot H0. unfold do_copy, transfer. destruct (negb (listed_ok h)); [intros E; inversion E; subst; exact H0|].
     destruct (each copy_file (h_dir h) dest (h_listed h) x) as [x1 ok1] eqn:EA.
     assert (F : fs_get (dest, h_file h) (fs x1) = None).
     { rewrite (each_copy_frame _ _ _ _ _ _ (dest, h_file h) EA); [exact H0|]. intros n Hn. apply entry_neq. intros ->. contradiction. }
@@ -303,7 +320,7 @@ Section Upload.
   Theorem C20_copy_success h dest x x' : do_copy h dest x = (x', true) ->
     exists x1, fs_get (dest, h_file h) (fs x') = fs_get (h_dir h, h_file h) (fs x1) /\ fs_get (h_dir h, h_file h) (fs x1) <> None.
   Proof.
-    unfold do_copy, transfer. destruct (negb (forallb plain (h_listed h))); [discriminate|].
+    unfold do_copy, transfer. destruct (negb (listed_ok h)); [discriminate|].
     destruct (each copy_file (h_dir h) dest (h_listed h) x) as [x1 ok1]; destruct ok1; [|discriminate].
     intros C. exists x1. destruct (copy_log _ _ _ _ _ C) as (ext&_&_&S&_). destruct (S eq_refl) as [_ G]. split; [exact G|].
     unfold copy_file, step in C. cbn [fs log tick] in C. destruct (fs_get (h_dir h, h_file h) (fs x1)); [discriminate|]. inversion C.
